@@ -224,6 +224,75 @@ theorem survivor_stable (o : Ordering) (cs R : List Conn) (hR : R.Sublist cs) (c
       simp [hc't] at this
 
 
+
+/-- (every interleaving of the two nodes' handshakes) Elections are run incrementally: each
+time a session authenticates, a node elects among the connections that are authenticated and
+still open THERE at that moment — some sub-multiset `R` of all connections `cs`, depending on
+the interleaving. Whatever `R` is, as long as it contains the connection `acc` that the
+accepting node would keep among all of `cs`, NEITHER node's partial election ever closes
+`acc`: the accepting node elects exactly `acc`, the initiating node's elected set contains it.
+So no schedule of authentications and closings on the two nodes can lose the final link, and
+when everything has authenticated and every loser is closed, what remains on both nodes is
+that one connection. -/
+theorem winner_survives_every_partial_election (o : Ordering) (ho : o ≠ .eq) (cs R : List Conn)
+    (hA : (cs.map (·.idA)).Nodup) (hB : (cs.map (·.idB)).Nodup) (hR : R.Sublist cs)
+    (acc : Conn) (hacc : acc ∈ survivors o cs) (haccR : acc ∈ R) :
+    (acc.aInit = false → (∀ c ∈ survivors o cs, acc.idA ≤ c.idA) →
+        electA o R = [acc.idA] ∧ acc.idB ∈ electB o R) ∧
+    (acc.aInit = true → (∀ c ∈ survivors o cs, acc.idB ≤ c.idB) →
+        electB o R = [acc.idB] ∧ acc.idA ∈ electA o R) := by
+  have hne : R ≠ [] := by intro h; rw [h] at haccR; simp at haccR
+  have hA' : (R.map (·.idA)).Nodup := (hR.map _).nodup hA
+  have hB' : (R.map (·.idB)).Nodup := (hR.map _).nodup hB
+  have haccS : acc ∈ survivors o R := survivor_stable o cs R hR acc hacc haccR
+  have hsub := survivors_sub_of_winner ho hR hacc haccR
+  obtain ⟨_, _, a', ha', h1, h2⟩ := agreement o ho R hne hA' hB'
+  obtain ⟨d, hd⟩ := survivors_same_dir ho R
+  constructor
+  · intro hai hmin
+    have ha'i : a'.aInit = false := by rw [hd a' ha', ← hd acc haccS, hai]
+    obtain ⟨eA, eB, hmin'⟩ := h1 ha'i
+    -- the acceptor's choice within R is `acc`: both are minimal and ids are distinct
+    have hle1 : a'.idA ≤ acc.idA := hmin' acc haccS
+    have hle2 : acc.idA ≤ a'.idA := hmin a' (hsub a' ha')
+    have heq : a' = acc := by
+      have hidx : a'.idA = acc.idA := Nat.le_antisymm hle1 hle2
+      exact nodup_map_inj' (·.idA) hA' ((survivors_sublist o R).subset ha') haccR hidx
+    subst heq
+    exact ⟨eA, by rw [eB]; exact List.mem_map.mpr ⟨a', haccS, rfl⟩⟩
+  · intro hai hmin
+    have ha'i : a'.aInit = true := by rw [hd a' ha', ← hd acc haccS, hai]
+    obtain ⟨eB, eA, hmin'⟩ := h2 ha'i
+    have hle1 : a'.idB ≤ acc.idB := hmin' acc haccS
+    have hle2 : acc.idB ≤ a'.idB := hmin a' (hsub a' ha')
+    have heq : a' = acc := by
+      have hidx : a'.idB = acc.idB := Nat.le_antisymm hle1 hle2
+      exact nodup_map_inj' (·.idB) hB' ((survivors_sublist o R).subset ha') haccR hidx
+    subst heq
+    exact ⟨eB, by rw [eA]; exact List.mem_map.mpr ⟨a', haccS, rfl⟩⟩
+
+/-- (convergence) A set of connections `R` that is at rest on both nodes — each node's election
+over `R` keeps all of `R` (nothing more will be closed) — and still contains the acceptor's
+global choice `acc`, is exactly `[acc]`: both nodes end with the same single physical link. -/
+theorem quiescent_set_is_the_single_winner (o : Ordering) (ho : o ≠ .eq) (cs R : List Conn)
+    (hA : (cs.map (·.idA)).Nodup) (hB : (cs.map (·.idB)).Nodup) (hR : R.Sublist cs)
+    (acc : Conn) (hacc : acc ∈ survivors o cs) (haccR : acc ∈ R)
+    (hminA : acc.aInit = false → ∀ c ∈ survivors o cs, acc.idA ≤ c.idA)
+    (hminB : acc.aInit = true → ∀ c ∈ survivors o cs, acc.idB ≤ c.idB)
+    (hrestA : electA o R = R.map (·.idA)) (hrestB : electB o R = R.map (·.idB)) : R = [acc] := by
+  obtain ⟨h1, h2⟩ := winner_survives_every_partial_election o ho cs R hA hB hR acc hacc haccR
+  cases hai : acc.aInit
+  · obtain ⟨eA, _⟩ := h1 hai (hminA hai)
+    rw [hrestA] at eA
+    have hl : R.length = 1 := by simpa using congrArg List.length eA
+    match R, hl, haccR with
+    | [x], _, hm => simp at hm; rw [hm]
+  · obtain ⟨eB, _⟩ := h2 hai (hminB hai)
+    rw [hrestB] at eB
+    have hl : R.length = 1 := by simpa using congrArg List.length eB
+    match R, hl, haccR with
+    | [x], _, hm => simp at hm; rw [hm]
+
 /-! ### `NodeServerState`: unauthenticated sessions cannot displace or veto -/
 
 /-- (non-interference, commit) Whatever name, direction and nonce an UNAUTHENTICATED session
@@ -332,6 +401,8 @@ end C18
 #print axioms C18.survivors_spec
 #print axioms C18.unique_survivor
 #print axioms C18.survivor_stable
+#print axioms C18.winner_survives_every_partial_election
+#print axioms C18.quiescent_set_is_the_single_winner
 #print axioms C18.unauthenticated_cannot_influence_commit
 #print axioms C18.unauthenticated_cannot_influence_check
 #print axioms C18.unauthenticated_cannot_influence_ready
